@@ -9,7 +9,8 @@ git checkout -q -- . ; rm -rf tests/seed_demo.rs
 git apply "$sd/patch.diff" || { echo "FAIL apply"; exit 1; }
 suite=$(cargo test --offline 2>&1 | grep -E "^test result" | tr '\n' ' ')
 echo "suite with patch: $suite"
-echo "$suite" | grep -q "39 passed; 0 failed" || { echo "FAIL: suite does not pass with the patch"; git checkout -q -- .; exit 1; }
+# (a change may add tests of its own: at least the 39 existing unit tests, none failing)
+echo "$suite" | grep -Eq "(39|4[0-9]) passed; 0 failed" && ! echo "$suite" | grep -q "FAILED" || { echo "FAIL: suite does not pass with the patch"; git checkout -q -- .; exit 1; }
 mkdir -p tests; cp "$sd/demo.rs" tests/seed_demo.rs
 with=$(cargo test --offline --test seed_demo 2>&1 | grep -E "^test result" | tr '\n' ' ')
 echo "demo with patch: $with"
